@@ -125,6 +125,11 @@ func c09Univ() *c09Universe {
 		for i, c := range certs {
 			add(fmt.Sprintf("cert%d.pem", i), pem.EncodeToMemory(&pem.Block{Type: "CERTIFICATE", Bytes: c}))
 		}
+		// PEM as other tools write it: explanatory text before the armour, CRLF line ends, trailing text
+		p0 := pem.EncodeToMemory(&pem.Block{Type: "CERTIFICATE", Bytes: certs[0]})
+		add("cert0.pem+bag-attributes", append([]byte("Bag Attributes\n    localKeyID: 01 02 03\nsubject=CN = x\nissuer=CN = y\n"), p0...))
+		add("cert1.pem+crlf+trailer", append(bytes.ReplaceAll(pem.EncodeToMemory(&pem.Block{Type: "CERTIFICATE", Bytes: certs[1]}), []byte("\n"), []byte("\r\n")), []byte("trailing text\n")...))
+		add("cert2.pem+leading-blank-lines", append([]byte("\n\n  \n"), pem.EncodeToMemory(&pem.Block{Type: "CERTIFICATE", Bytes: certs[2]})...))
 	})
 	return &c09u
 }
@@ -161,6 +166,8 @@ func listInvariants(l *signature.SignatureList) string {
 }
 
 type c09hist struct {
+	initialEmpty int  // empty lists present in the decoded start state (legal in a stream)
+	initialDup   bool // the decoded start state already holds identical entries
 	r      *mon.Run
 	rng    *rand.Rand
 	db     *signature.SignatureDatabase
@@ -178,12 +185,24 @@ func (h *c09hist) viol(key, what string) {
 
 // checkState validates the invariants that must hold after every operation.
 func (h *c09hist) checkState(op string) {
+	empties := 0
 	for _, l := range *h.db {
 		if len(l.Signatures) == 0 {
-			h.viol(op+"|empty-list-left", "a list without entries is left in the database")
-			return
+			empties++
+			if empties > h.initialEmpty {
+				h.viol(op+"|empty-list-left", "a list without entries is left in the database")
+				return
+			}
+			if l.ListSize != 28+l.HeaderSize {
+				h.viol(op+"|size-equation", fmt.Sprintf("empty list with ListSize %d", l.ListSize))
+				return
+			}
+			continue
 		}
 		if msg := listInvariants(l); msg != "" {
+			if h.initialDup && strings.Contains(msg, "identical") {
+				continue
+			}
 			kind := "size-equation"
 			if strings.Contains(msg, "identical") {
 				kind = "duplicate-in-list"
@@ -413,6 +432,9 @@ func (h *c09hist) step() {
 		}
 	case opk < 86: // AppendList / Exists(list) / AppendDatabase with a fresh list built at list level
 		ti := rng.Intn(3)
+		if rng.Intn(8) == 0 {
+			ti = 3 // a list of a type the library does not know can enter through AppendList
+		}
 		t := u.types[ti]
 		sl := signature.NewSignatureList(t)
 		var lmodel []mEntry
@@ -595,7 +617,42 @@ func checkC09(r *mon.Run) {
 	mon.Parallel(n, 16, func(i int) {
 		rng := mon.Rand(r.Seed, "C09", i)
 		h := &c09hist{r: r, rng: rng, flags: map[string]bool{}}
-		if i%4 == 3 {
+		if i%8 == 6 {
+			// a decoded generated stream: may contain entry-less lists and repeated entries, both legal on the wire
+			var ls []refesl.List
+			nl := 1 + rng.Intn(3)
+			for k := 0; k < nl; k++ {
+				l := refesl.List{Type: refesl.SHA256Type, SigSize: 48}
+				ne := rng.Intn(4)
+				for e := 0; e < ne; e++ {
+					var o [16]byte
+					copy(o[:], fromLib(c09Univ().owners[rng.Intn(3)]).Wire())
+					d := c09Univ().datas[rng.Intn(3)]
+					l.Entries = append(l.Entries, refesl.Entry{Owner: o, Data: d})
+				}
+				ls = append(ls, l)
+			}
+			db, err, p := libDecodeESL(refesl.Encode(ls))
+			if err != nil || p != "" {
+				r.Inconclusive("generated start stream does not decode: %v %s", err, p)
+				return
+			}
+			h.db = &db
+			h.log = append(h.log, fmt.Sprintf("start:decoded-generated(%d lists)", nl))
+			seen := map[string]bool{}
+			for _, l := range db {
+				if len(l.Signatures) == 0 {
+					h.initialEmpty++
+				}
+				for _, sg := range l.Signatures {
+					k := fmt.Sprintf("%x|%x", fromLib(sg.Owner).Wire(), sg.Data)
+					if seen[k] {
+						h.initialDup = true
+					}
+					seen[k] = true
+				}
+			}
+		} else if i%4 == 3 {
 			c := caps[rng.Intn(len(caps))]
 			db, err, p := libDecodeESL(c.data)
 			if err != nil || p != "" {
